@@ -101,6 +101,19 @@ Fixpoint run_segs (segs : list (list Z)) (count : Z) (offs buf : list Z) : Z * l
     run_segs rest (count + 1) (upd offs count (wrapU 32 (zlen b))) (b ++ sg)
   end.
 
+(* ... and to the offsetOverflow flag *)
+Fixpoint run_ovf (segs : list (list Z)) (ovf : bool) (buf : list Z) : bool :=
+  match segs with
+  | [] => ovf
+  | sg :: rest =>
+    let b := pad_even buf in
+    run_ovf rest (ovf || (zlen b >? 4294967295)) (b ++ sg)
+  end.
+
+(* some segment offset does not fit the 32-bit header field *)
+Definition overflows (segs : list (list Z)) : bool :=
+  existsb (fun o => o >? 4294967295) (offsets_from 64 segs).
+
 Lemma plane_fits : forall g (src : list Z) s, geom_wide g -> zlen src = frame_len g -> 0 <= s < nseg g ->
   (Z.of_nat (Z.to_nat (g_npix g)) - 1) * seg_off_dec g < zlen (zskip (seg_pos g s) src)
   /\ 0 <= seg_pos g s <= zlen src.
@@ -117,28 +130,30 @@ Lemma enc_segs_run : forall g src k fuel s st, geom_wide g -> zlen src = frame_l
   Z.of_nat k = nseg g - s -> 0 <= s -> e_c st = c_init -> e_count st = s -> (k < fuel)%nat ->
   enc_segs fuel g src s st =
   Ok (let '(c, o, b) := run_segs (map (fun j => encode_segment (plane g src j)) (zrange s k))
-                                 s (e_offsets st) (e_buf st) in mkE c o b c_init).
+                                 s (e_offsets st) (e_buf st) in
+      mkE c o b c_init
+          (run_ovf (map (fun j => encode_segment (plane g src j)) (zrange s k)) (e_ovf st) (e_buf st))).
 Proof.
   intros g src k. induction k as [|k IH]; intros fuel s st Hg Hlen Hk Hs Hc Hcnt Hfuel.
   - destruct fuel as [|f]; [lia|]. cbn [enc_segs zrange map run_segs].
-    destruct (Z.ltb_spec s (nseg g)); [lia|]. destruct st as [c o b cc]. cbn in *. subst. reflexivity.
+    destruct (Z.ltb_spec s (nseg g)); [lia|]. destruct st as [c o b cc ov]. cbn in *. subst. reflexivity.
   - destruct fuel as [|f]; [lia|]. cbn [enc_segs zrange map run_segs].
     destruct (Z.ltb_spec s (nseg g)); [|lia].
     assert (H15 : nseg g <= 15) by (unfold nseg; destruct Hg as (_ & _ & Hle & _); exact Hle).
-    destruct st as [cnt offs buf c]. cbn [e_c e_count e_offsets e_buf] in *. subst c cnt.
-    unfold next_segment, est_flush. cbn [e_c e_count e_offsets e_buf]. rewrite enc_flush_init.
-    cbn [e_c e_count e_offsets e_buf]. rewrite app_nil_r.
+    destruct st as [cnt offs buf c ov]. cbn [e_c e_count e_offsets e_buf e_ovf] in *. subst c cnt.
+    unfold next_segment, est_flush. cbn [e_c e_count e_offsets e_buf e_ovf]. rewrite enc_flush_init.
+    cbn [e_c e_count e_offsets e_buf e_ovf]. rewrite app_nil_r.
     destruct (Z.ltb_spec s 0); [lia|]. destruct (Z.geb_spec s 15); [lia|]. cbn [orb obind].
     destruct (plane_fits g src s Hg Hlen ltac:(lia)) as [Hfit Hpos].
     rewrite seg_off_same.
     replace (g_npix g) with (Z.of_nat (Z.to_nat (g_npix g))) at 1 by (destruct Hg as (_ & _ & _ & Hn); lia).
     rewrite enc_plane_stride; [|apply seg_off_pos; assumption|assumption|].
     2:{ assert (zlen (zskip (seg_pos g s) src) <= zlen src) by (rewrite zlen_zskip by lia; lia). unfold zlen in *. lia. }
-    cbn [obind e_c e_count e_offsets e_buf]. fold (plane g src s).
-    destruct (enc_bytes c_init (plane g src s)) as [o c'] eqn:Eb. cbn [fst snd e_c e_count e_offsets e_buf].
+    cbn [obind e_c e_count e_offsets e_buf e_ovf]. fold (plane g src s).
+    destruct (enc_bytes c_init (plane g src s)) as [o c'] eqn:Eb. cbn [fst snd e_c e_count e_offsets e_buf e_ovf].
     pose proof (enc_flush_snd c') as Hsnd. destruct (enc_flush c') as [o2 c2] eqn:Ef. cbn [snd] in Hsnd. subst c2.
     rewrite IH; try assumption; try lia; try reflexivity.
-    cbn [e_c e_count e_offsets e_buf].
+    cbn [e_c e_count e_offsets e_buf e_ovf run_ovf].
     unfold encode_segment. rewrite Eb, Ef. cbn [fst]. rewrite <- !app_assoc. reflexivity.
 Qed.
 
@@ -176,13 +191,23 @@ Proof.
       * rewrite Hp. unfold body. cbn [map concat]. rewrite <- !app_assoc. reflexivity.
 Qed.
 
+Lemma run_ovf_closed : forall segs ovf buf,
+  run_ovf segs ovf buf
+  = ovf || existsb (fun o => o >? 4294967295) (offsets_from (zlen (pad_even buf)) segs).
+Proof.
+  induction segs as [|sg r IH]; intros ovf buf.
+  - cbn. rewrite Bool.orb_false_r. reflexivity.
+  - cbn [run_ovf offsets_from existsb]. rewrite IH.
+    rewrite pad_even_app by apply pad_even_is_even. rewrite zlen_app, Bool.orb_assoc. reflexivity.
+Qed.
+
 (* ---------------------------------------------------------------- encodeFrame *)
 
 Lemma zskip_64 : forall b, zskip 64 (repeat 0 64 ++ b) = b.
 Proof. intros b. apply (zskip_app _ (repeat 0 64) b). Qed.
 
 Theorem rle_encode_closed : forall g src, geom_wide g -> zlen src = frame_len g ->
-  rle_encode g src = Ok (stream_of (seg_list g src)).
+  rle_encode g src = if overflows (seg_list g src) then Err else Ok (stream_of (seg_list g src)).
 Proof.
   intros g src Hg Hlen. unfold rle_encode.
   assert (Hfl : 0 < frame_len g).
@@ -192,14 +217,16 @@ Proof.
   rewrite (enc_segs_run g src (Z.to_nat (nseg g)) 16 0 e_init); try assumption; try reflexivity; try lia.
   fold (seg_list g src). set (segs := seg_list g src).
   assert (Hls : length segs = Z.to_nat (nseg g)) by (unfold segs, seg_list; rewrite map_length, zrange_length; reflexivity).
-  cbn [e_init e_offsets e_buf].
+  cbn [e_init e_offsets e_buf e_ovf].
   destruct (run_segs_closed segs 0 [] (repeat 0 15) (repeat 0 64)) as (buf' & E & Hp); [reflexivity|rewrite repeat_length; lia|].
-  cbn [app] in E. rewrite E. cbn [obind].
+  cbn [app] in E. rewrite E. cbn [obind e_ovf].
+  rewrite run_ovf_closed. rewrite (pad_even_even (repeat 0 64)) by reflexivity.
+  change (zlen (repeat 0 64)) with 64. cbn [orb]. fold (overflows segs).
+  destruct (overflows segs); [reflexivity|].
   unfold get_buffer, make_even, est_flush. cbn [e_c e_count e_offsets e_buf]. rewrite enc_flush_init.
   cbn [e_c e_count e_offsets e_buf]. rewrite app_nil_r, Hp.
   rewrite (pad_even_even (repeat 0 64)) by reflexivity. rewrite zskip_64.
-  unfold stream_of. f_equal. f_equal.
-  change (zlen (repeat 0 64)) with 64. f_equal.
+  unfold stream_of. f_equal. f_equal. f_equal.
   (* the untouched tail of the offsets array *)
   clear -Hls Hn15. rewrite Hls.
   assert (H : forall a b, (a + b = 15)%nat -> skipn a (repeat 0 15) = repeat 0 b).
